@@ -261,7 +261,13 @@ class Interp(ExprMixin):
             if isinstance(fn, ast.Lambda):
                 v = self.eval(fn.body, env, module)
                 return v
-            is_gen = any(isinstance(x, (ast.Yield, ast.YieldFrom)) for x in _walk_own(fn))
+            is_gen = getattr(fn, "_sa_is_gen", None)
+            if is_gen is None:
+                is_gen = any(isinstance(x, (ast.Yield, ast.YieldFrom)) for x in _walk_own(fn))
+                try:
+                    fn._sa_is_gen = is_gen
+                except Exception:
+                    pass
             if is_gen:
                 env["__yield__"] = PyList([])
             try:
@@ -354,7 +360,7 @@ class Interp(ExprMixin):
         elif isinstance(st, ast.Pass):
             return
         elif isinstance(st, ast.If):
-            if self.truthy(self.eval(st.test, env, module), ast.unparse(st.test)):
+            if self.truthy(self.eval(st.test, env, module), st.test):
                 self.exec_block(st.body, env, module)
             else:
                 self.exec_block(st.orelse, env, module)
@@ -372,7 +378,7 @@ class Interp(ExprMixin):
             self.event("while", where=module.loc(st))
             # bounded unrolling: 0, 1 iterations then abandon (loops are outside the supported subset)
             k = 0
-            while k < 2 and self.truthy(self.eval(st.test, env, module), ast.unparse(st.test)):
+            while k < 2 and self.truthy(self.eval(st.test, env, module), st.test):
                 try:
                     self.exec_block(st.body, env, module)
                 except _Break:
@@ -742,7 +748,7 @@ class Interp(ExprMixin):
             v = v.options[self.choose(len(v.options), "alt")]
         return v
 
-    def truthy(self, v: V, label: str = "") -> bool:
+    def truthy(self, v: V, label: Any = "") -> bool:
         v = self.resolve_alt(v)
         if isinstance(v, Const):
             return bool(v.v)
